@@ -199,7 +199,7 @@ def lattice_run(job):
 
     def dist(p, q):
         a, b = ipos(p), ipos(q)
-        return abs(a[0] - b[0]) + abs(a[1] - b[1]) + abs(a[2] - b[2])
+        return 3 * abs(a[0] - b[0]) + abs(a[1] - b[1]) + 2 * abs(a[2] - b[2])     # the spec's anisotropic metric
 
     def coll(n1, n2):
         a, b = ipos(n1.getPosition()), ipos(n2.getPosition())
@@ -269,7 +269,16 @@ def real_run(job):
                             if not all(float(o[0][i]) - 0.2 <= float(origin[i]) <= float(o[1][i]) + 0.2 for i in range(3))]
     goal = tm([rng.uniform(-half, half), rng.uniform(-half, half), rng.uniform(0, half), 0, 0, 0])
     dist0, obs0, rp0 = rrt.distance, rrt.obstruction, rrt.randomPos
-    rec = Recorder(rrt, lambda p, q: dist0(p, q), lambda a, b: obs0(a, b), UNIT, iters)
+    custom = (tid % 2 == 0)          # every other run goes through the general entry point with the caller's own metric
+    if custom:
+        wx, wy, wz = rng.choice([(4.0, 1.0, 1.0), (1.0, 3.0, 0.5), (2.0, 2.0, 5.0)])
+
+        def dist_c(p, q):
+            return float(wx * abs(p[0] - q[0]) + wy * abs(p[1] - q[1]) + wz * abs(p[2] - q[2]))
+        rrt.maximum_distance = rrt.maximum_distance * max(wx, wy, wz)
+    else:
+        dist_c = lambda p, q: dist0(p, q)
+    rec = Recorder(rrt, dist_c, lambda a, b: obs0(a, b), UNIT, iters)
 
     def rp():
         n = rp0()
@@ -278,14 +287,18 @@ def real_run(job):
     rrt.randomPos = rp
     try:
         with contextlib.redirect_stdout(io.StringIO()):
-            poses = rrt.findPath(goal)
+            if custom:
+                poses = rrt.findPathGeneral(lambda: rrt.generalGenerateTree(rp, dist_c, lambda a, b: obs0(a, b)), goal)
+            else:
+                poses = rrt.findPath(goal)
         rec.final()
         rec.path(poses, goal)
     except Exception as e:
         rec.cur = None
         rec.ev.append({"ev": "Raise", "msg": "%s: %s" % (type(e).__name__, e)})
     meta = {"seed": seed, "iterations": iters, "knn": rrt.nearest_neighbors_limit, "dmode": rrt.dmode,
-            "layout": layout, "boxes": len(rrt.obstructions), "min": rrt.minimum_distance, "max": rrt.maximum_distance}
+            "layout": layout, "boxes": len(rrt.obstructions), "min": rrt.minimum_distance, "max": rrt.maximum_distance,
+            "entry": "findPathGeneral+custom metric" if custom else "findPath"}
     return {"id": tid, "ev": rec.ev, "meta": meta}
 
 
@@ -311,14 +324,14 @@ def report_rejected(ctx, traces, acc, cfg, kind, extra):
 
 
 MODELS = [  # name, Pts, Boxes, KNN, MinD, MaxD, Iter
-    ("plane-wall-k2", "Pts332", "Wall", 2, 1, 3, 3),
-    ("plane-twoboxes-k3", "Pts332", "TwoBoxes", 3, 1, 4, 3),
-    ("layers-nobox-k1", "Pts222", "NoBoxes", 1, 1, 2, 3),
+    ("plane-wall-k2", "Pts332", "Wall", 2, 1, 6, 3),
+    ("plane-twoboxes-k3", "Pts332", "TwoBoxes", 3, 1, 7, 3),
+    ("layers-nobox-k1", "Pts222", "NoBoxes", 1, 1, 4, 3),
 ]
 MODELS_THOROUGH = [
-    ("plane-wall-k2-i4", "Pts332", "Wall", 2, 1, 3, 4),
-    ("layers-twoboxes-k2-i4", "Pts222", "TwoBoxes", 2, 1, 3, 4),
-    ("cube-wall-k3-i3", "Pts333", "Wall", 3, 1, 4, 3),
+    ("plane-wall-k2-i4", "Pts332", "Wall", 2, 1, 6, 4),
+    ("layers-twoboxes-k2-i4", "Pts222", "TwoBoxes", 2, 1, 6, 4),
+    ("cube-wall-k3-i3", "Pts333", "Wall", 3, 1, 7, 3),
 ]
 
 
@@ -338,7 +351,7 @@ def lattice_cfg(pts, boxes, knn, mind, maxd, it, mode):
 def run(ctx):
     import basic_robotics.path_planning.pathplanner  # noqa: F401
     rng = random.Random(ctx.seed + 16)
-    models = MODELS + ([] if ctx.quick else MODELS_THOROUGH)
+    models = (MODELS[:2] if ctx.quick else MODELS + MODELS_THOROUGH)
     n_seq = n_acc = n_lat = 0
     cap = ctx.pick(2500, 60000)
     for name, pts, boxes, knn, mind, maxd, it in models:
